@@ -104,6 +104,19 @@ CHECKS = {
             "(harness/machine.py). The families are finite and hand-designed; values are ints, booleans, strings, lists, sets, "
             "maps, objects and closures.",
             "DESIGN.md 4 C05"),
+    "C12": (["OrderOps.tla", "Order.tla", "Order_Trace.tla"],
+            "TLA+ model of the enumeration sites with the internal order of sets/maps as nondeterminism (TLC: OrderIndependence over "
+            "all permutations); the per-site sorted/raw table is derived from observation; 216 program templates executed in fresh "
+            "processes under 8 (thorough 32) PYTHONHASHSEED values and 3 construction orders; TLC trace validation against the "
+            "model's deterministic prediction",
+            "In Order.tla every set/map carries an arbitrary permutation re-chosen on insertion; with all 21 enumeration sites sorted "
+            "TLC proves every one of the 38 model programs (direct and composite) observation-independent of that permutation "
+            "(N=4, all 24 permutations), with a raw site it yields the counterexample permutation. 216 templates covering iteration, "
+            "the comprehension forms, conversions, spread, destructuring, rendering, set arithmetic and the bundled collection "
+            "functions run in 480 (thorough 10k) fresh `python -m ckl.run` processes; stdout, result and error must be identical "
+            "across seeds and construction orders, and equal the model's prediction for the 110 templates the model covers.",
+            "Trusted: TLC, the mapping of templates to model programs; seeds 0..7 (thorough 0..31) stand for 'every seed'.",
+            "DESIGN.md 4 C12"),
     "C14": (["LexerOps.tla", "Lexer.tla", "LexerMC.tla", "ExprOps.tla", "Expr.tla"],
             "TLC-checked SameSignature invariant of the scanner mirror over separators x literal spellings; programs re-rendered "
             "from the model's separator/spelling alphabet and interpreted, observations compared",
